@@ -25,7 +25,9 @@
 //	            timestamps. Backend: Conns, Open, WaitConn, Close.
 //	client.go   Client: Dial + Login (handshake, login start, SetCompression, LoginSuccess, 1.20.2+
 //	            LoginAcknowledged / configuration acks, StartUpdate acks during switches), WaitJoins,
-//	            Send, Received, WaitReceived, IsClosed, Kicked.
+//	            Send, Received, WaitReceived, IsClosed, Kicked. Against a proxy started with Online the login
+//	            does the real encryption exchange (RSA PKCS#1 v1.5, then AES/CFB8 written from its definition
+//	            in wire.go; session server scripted by harness/e2e.NewAuth) - Encrypted reports it.
 //	proxy.go    StartProxy(ProxyOpts) builds the proxy (offline mode, forwarding none, quotas and packet
 //	            limiter off, configurable compression threshold / timeouts / try list), accepts
 //	            loopback connections into Proxy.HandleConn; Register(backend); Player(name).
